@@ -87,6 +87,8 @@ def run(ctx):
     ctx.do(rule_same_decider)
     ctx.do(rule_sets_and_numbers)
     ctx.do(rule_copy_complete)
+    ctx.do(rule_mask_arithmetic)
+    ctx.do(rule_absorption_same_connective)
     ctx.do(rule_changed_flag)
     ctx.do(rule_flag_returned)
     ctx.do(rule_lexicographic_chains)
@@ -880,3 +882,144 @@ def rule_sets_and_numbers(ctx):
     run.check(ok, R, key(cc.module.relpath, cc.qualname, "numeric-kinds-compared-by-value"), "integer and float constants are not "
               "compared by numeric value (1 and 1.0 would differ)", file=cc.module.relpath, line=cc.node.lineno, function=cc.qualname,
               expected="if both numeric: generic_constant_cmp(value1, value2)", found=short(first, 160) if first is not None else None)
+
+
+def _int_eval(e, env):
+    """closed integer expressions over named integers (None: not of that kind)"""
+    if isinstance(e, ast.Constant) and isinstance(e.value, int) and not isinstance(e.value, bool):
+        return e.value
+    if isinstance(e, ast.Name):
+        return env.get(e.id)
+    if isinstance(e, ast.Call) and call_simple_name(e) == "len" and len(e.args) == 1 and isinstance(e.args[0], ast.Name):
+        return env.get("len(%s)" % e.args[0].id)
+    if isinstance(e, ast.UnaryOp) and isinstance(e.op, ast.USub):
+        v = _int_eval(e.operand, env)
+        return None if v is None else -v
+    if isinstance(e, ast.BinOp):
+        a, b = _int_eval(e.left, env), _int_eval(e.right, env)
+        if a is None or b is None:
+            return None
+        try:
+            if isinstance(e.op, ast.Add):
+                return a + b
+            if isinstance(e.op, ast.Sub):
+                return a - b
+            if isinstance(e.op, ast.Mult):
+                return a * b
+            if isinstance(e.op, ast.FloorDiv):
+                return a // b
+            if isinstance(e.op, ast.Mod):
+                return a % b
+            if isinstance(e.op, ast.LShift):
+                return a << b if 0 <= b < 64 else None
+            if isinstance(e.op, ast.RShift):
+                return a >> b if 0 <= b < 64 else None
+            if isinstance(e.op, ast.BitAnd):
+                return a & b
+            if isinstance(e.op, ast.BitOr):
+                return a | b
+        except (ZeroDivisionError, ValueError):
+            return None
+    return None
+
+
+def rule_mask_arithmetic(ctx):
+    """CIDR canonicalisation keeps the first `prefix` bits of an address and zeroes the rest (_mask_bytes).  Its byte arithmetic
+    is a handful of closed integer expressions over (address size, prefix size); they are tabulated over the WHOLE domain --
+    both address sizes, every prefix 0..32 / 0..128 -- by constant folding, and three facts are read off the table: the slice
+    that is zeroed wholesale never reaches into a byte that holds prefix bits; fully kept + fully zeroed + (one partial byte iff
+    the prefix is not a multiple of 8) is the address; the mask of the partial byte keeps exactly prefix mod 8 high bits."""
+    run = ctx.run
+    prog = ctx.prog
+    R = "C09.special-values"
+    fi = prog.func("stix2.equivalence.pattern.transform.specials::_mask_bytes")
+    rel = fi.module.relpath
+    if len(fi.params) != 2:
+        raise AnalysisError("_mask_bytes: two parameters expected")
+    buf, pre = fi.params
+    assigns = [a_ for a_ in body_walk(fi.node) if isinstance(a_, ast.Assign) and isinstance(a_.targets[0], ast.Name)]
+    # the slice store that zeroes whole bytes: buf[<start>:] = b"\x00" * <count>
+    zs = [a_ for a_ in body_walk(fi.node) if isinstance(a_, ast.Assign) and isinstance(a_.targets[0], ast.Subscript)
+          and norm(a_.targets[0].value) == buf and isinstance(a_.targets[0].slice, ast.Slice)]
+    ms = [a_ for a_ in body_walk(fi.node) if isinstance(a_, ast.AugAssign) and isinstance(a_.op, ast.BitAnd)
+          and isinstance(a_.target, ast.Subscript) and norm(a_.target.value) == buf]
+    if len(zs) != 1 or len(ms) != 1 or zs[0].targets[0].slice.lower is None or zs[0].targets[0].slice.upper is not None:
+        raise AnalysisError("_mask_bytes: the wholesale zeroing slice / the partial-byte mask were not recognised")
+    bad = []
+    rows = 0
+    for size in (4, 16):
+        for p_ in range(0, 8 * size + 1):
+            env = {pre: p_, "len(%s)" % buf: size}
+            for a_ in assigns:         # straight-line definitions, in source order (the conditional ones are closed as well)
+                v = _int_eval(a_.value, env)
+                if v is not None:
+                    env[a_.targets[0].id] = v
+            start = _int_eval(zs[0].targets[0].slice.lower, env)
+            idx = _int_eval(ms[0].target.slice, env)
+            mask = _int_eval(ms[0].value, env)
+            guard_z = [t for t, pol, _ in guard_chain(zs[0]) if pol]
+            if start is None or idx is None:
+                raise AnalysisError("_mask_bytes: index arithmetic not closed over (size, prefix)")
+            rows += 1
+            zero_from = min(start, size) if start >= 0 else max(size + start, 0)
+            # does the zeroing statement run?  its guards are comparisons of closed expressions
+            runs = True
+            for t in guard_z:
+                if isinstance(t, ast.Compare) and len(t.ops) == 1:
+                    l_, r_ = _int_eval(t.left, env), _int_eval(t.comparators[0], env)
+                    if l_ is not None and r_ is not None:
+                        runs = runs and {ast.Gt: l_ > r_, ast.GtE: l_ >= r_, ast.Lt: l_ < r_, ast.LtE: l_ <= r_, ast.Eq: l_ == r_,
+                                         ast.NotEq: l_ != r_}.get(type(t.ops[0]), True)
+            first_free_byte = (p_ + 7) // 8            # first byte that holds no prefix bit
+            if runs and zero_from < first_free_byte:
+                bad.append("/%d of a %d-byte address: bytes from %d are zeroed, but byte %d still holds prefix bits" % (p_, size, zero_from, first_free_byte - 1))
+            if (not runs or zero_from > first_free_byte) and first_free_byte < size:
+                bad.append("/%d of a %d-byte address: byte %d lies after the prefix and is not zeroed" % (p_, size, first_free_byte))
+            if p_ % 8:
+                if idx != p_ // 8:
+                    bad.append("/%d: the partial byte is taken to be byte %d" % (p_, idx))
+                if mask is None or (mask & 0xFF) != ((0xFF << (8 - p_ % 8)) & 0xFF):
+                    bad.append("/%d: the partial byte is masked with %s" % (p_, "0x%02x" % (mask & 0xFF) if mask is not None else "?"))
+    run.check(not bad, R, key(rel, fi.qualname, "mask-keeps-exactly-the-prefix"),
+              "the CIDR mask does not keep exactly the prefix bits: %s%s -- different networks get one canonical value (reported "
+              "equivalent), or one network two" % ("; ".join(bad[:3]), " ... (%d rows)" % len(bad) if len(bad) > 3 else ""), file=rel,
+              line=fi.node.lineno, function=fi.qualname, expected="all %d (size, prefix) rows" % rows, found="%d rows wrong" % len(bad))
+
+
+def rule_absorption_same_connective(ctx):
+    """Absorption at observation level (A OR (A AND B) = A; likewise for FOLLOWEDBY) drops a disjunct whose operands CONTAIN
+    those of another disjunct.  Containment only means implication when both disjuncts are built with the SAME connective: an
+    AND does not imply a FOLLOWEDBY over the same operands (no order), so a FOLLOWEDBY must not absorb an AND.  Every call of a
+    containment helper is guarded by a test that the two nodes have the same type."""
+    run = ctx.run
+    prog = ctx.prog
+    R = "C09.absorption"
+    n = 0
+    for fi in sorted(prog.functions.values(), key=lambda f: f.id):
+        if fi.module.name != "stix2.equivalence.pattern.transform.observation":
+            continue
+        for c in body_walk(fi.node):
+            if not (isinstance(c, ast.Call) and "is_contained" in (call_simple_name(c) or "") and len(c.args) == 2):
+                continue
+            roots = []
+            for a_ in c.args:
+                r_ = a_
+                while isinstance(r_, (ast.Attribute, ast.Subscript)):
+                    r_ = r_.value
+                roots.append(norm(r_))
+            n += 1
+            same = False
+            for t, pol, _ in guard_chain(c):
+                for cmp_ in [x for x in ast.walk(t) if isinstance(x, ast.Compare) and len(x.ops) == 1]:
+                    l_, r_ = cmp_.left, cmp_.comparators[0]
+                    if pol and isinstance(cmp_.ops[0], (ast.Is, ast.Eq)) and all(
+                            isinstance(z, ast.Call) and call_simple_name(z) == "type" and z.args for z in (l_, r_)) \
+                            and {norm(l_.args[0]), norm(r_.args[0])} == set(roots):
+                        same = True
+            run.check(same, R, key(fi.module.relpath, fi.qualname, "same-connective:%s" % call_simple_name(c).lstrip("_")),
+                      "operand containment is tested between two nodes that are not known to be built with the same connective: a "
+                      "FOLLOWEDBY absorbs an AND over the same operands (or the reverse), although the AND matches observations in "
+                      "any order -- patterns with different matches are reported equivalent", file=fi.module.relpath, line=c.lineno,
+                      function=fi.qualname, expected="type(%s) is type(%s) on the way to the call" % tuple(roots), found=[norm(t) for t, pol, _ in guard_chain(c)][-3:])
+    if n < 2:
+        raise AnalysisError("fewer than 2 containment tests found in the observation absorption (%d)" % n)
